@@ -102,7 +102,9 @@ def gen(r) -> Dict[str, Any]:
     suspend = r.random() < 0.4
     nsig = r.choice([0, 0, 1, 2])
     lend = r.random() < 0.35
-    setup = [["src", p] for p in pairs]
+    single_feed = npairs >= 3 and r.random() < 0.3
+    # one feed may carry the bars of several pairs (several events with the same timestamp from one source)
+    setup = [["src_all"]] if single_feed else [["src", p] for p in pairs]
     bar_handlers = [p for p in pairs if r.random() < 0.7] or [pairs[0]]
     setup += [["sub", p] for p in bar_handlers]
     second = [p for p in bar_handlers if r.random() < 0.35]        # a second, independent handler on the same pair
@@ -159,6 +161,7 @@ def build_bar_lists(sc: Dict[str, Any]) -> Dict[str, list]:
         pair = Pair(b, q)
         out[p] = [bar.BarEvent(T(day), bar.Bar(T(day - 1), pair, D(o), D(h), D(low), D(c), D(v)))
                   for (day, o, h, low, c, v) in rows]
+    out["*"] = sorted((ev for lst in out.values() for ev in lst), key=lambda ev: ev.when)
     return out
 
 
@@ -290,7 +293,13 @@ class OneRun:
         always_order_events = True
         subscribed_order_events = False
         for step in sc["setup"]:
-            if step[0] == "src":
+            if step[0] == "src_all":
+                if self.shared_lists is not None:
+                    allev = self.shared_lists["*"]
+                else:
+                    allev = build_bar_lists(sc)["*"]
+                e.add_bar_source(event.FifoQueueEventSource(events=allev))
+            elif step[0] == "src":
                 p = step[1]
                 if self.shared_lists is not None:
                     src = event.FifoQueueEventSource(events=self.shared_lists[p])
@@ -390,7 +399,8 @@ def evaluate(sc: Dict[str, Any], res: ShardResult, key: str) -> Dict[str, str]:
 
 def classify(sc: Dict[str, Any], mc: int) -> str:
     # known mechanism: a saturated pool (fewer slots than events of one time) lets a derived event overtake a primary bar
-    n_sources = len(sc["pairs"]) + len([s for s in sc["setup"] if s[0] in ("sub", "signal", "order_events")])
+    n_sources = len([s for s in sc["setup"] if s[0] in ("src", "src_all")]) + \
+        len([s for s in sc["setup"] if s[0] in ("sub", "signal", "order_events")])
     return "derived_event_overtakes_primary_when_pool_saturated" if mc < n_sources else ""
 
 
